@@ -263,6 +263,10 @@ void Runner::on_libcall(Thread *t, Kind k, bool child_side) {
   }
 }
 
+void Runner::on_preempt(Thread *t) {
+  if (t->op >= 0 && t->api_depth > 0 && plan.ops[(size_t) t->op].kind == OP_START && t->ncalls[0][K_pipe] > 0 && t->ncalls[0][K_fork] == 0) probe(P_preempt_in_pipe_init);
+}
+
 void Runner::on_clock(Thread *t, int64_t msv) { octx[(size_t) t->tid].last_clock_ms = msv; }
 
 void Runner::on_kill(Thread *t, int pid, int sig, Proc *target) {
@@ -442,6 +446,16 @@ RunResult run_plan(const Plan &plan, const RunOpts &opts) {
   G = &r;
   r.setup();
   K->run();
+  r.out.probes[P_getcwd_grew] += K->n_getcwd_erange;
+  r.out.probes[P_data_at_death] += K->n_data_at_death;
+  r.out.probes[P_reoccupied] += K->reoccupied.size();
+  for (auto &f : K->faults) {
+    if (!f.fired || f.err != EINTR) continue;
+    if (f.kind == K_poll) r.out.probes[P_eintr_poll]++;
+    if (f.kind == K_read) r.out.probes[P_eintr_read]++;
+    if (f.kind == K_write) r.out.probes[P_eintr_write]++;
+    if (f.kind == K_waitpid) r.out.probes[P_eintr_waitpid]++;
+  }
   r.out.hung = K->hung;
   r.out.capped = K->capped;
   r.out.fatal = K->fatal;
